@@ -68,7 +68,7 @@ pub fn all() -> Vec<Prop> {
             level: "exploration",
             rule: "one evaluation = one simulated cluster execution (seed -> committee, fault mix, plan of director actions, schedule); non-trivial = at least one block committed by a correct node and (except in the fault-free population) at least one fault fired; distinct = distinct event-log fingerprint",
             batches: |t| {
-                let mut b = bft_batches(&[("faultfree", 24), ("swarm", 200), ("hidden", 160)], &[("faultfree", 200), ("swarm", 6000), ("hidden", 2000)], t);
+                let mut b = bft_batches(&[("faultfree", 24), ("swarm", 200), ("hidden", 160), ("twins", 120)], &[("faultfree", 200), ("swarm", 6000), ("hidden", 2000), ("twins", 3000)], t);
                 b.push(Batch { engine: "node", mode: "cluster", runs: if t == "thorough" { 600 } else { 16 } });
                 b
             },
@@ -361,7 +361,36 @@ fn bft_case(mode: &str, seed: u64) -> (bft::Cfg, Vec<bft::Action>, bft::RunOpts)
         cfg.faults.crash_in_write = if rand::Rng::gen_bool(&mut rng, 0.4) { 2 } else { 0 };
         cfg.n_actions = rand::Rng::gen_range(&mut rng, 500..1400);
     }
+    if mode == "twins" {
+        // Twins (Bano et al.): the Byzantine validator is 2-3 instances of the real replica code
+        // sharing one key, each with its own disk and its own audience among the correct nodes -
+        // well-timed, rule-abiding equivocation.  The scripted adversary speaks under the same key
+        // as well.  Committees of 6-9 in which one validator may be faulty (equal or unequal weights).
+        let mut rng = crate::kit::stream(seed, "twins-cfg");
+        let n = rand::Rng::gen_range(&mut rng, 6..=9usize);
+        let heavy = rand::Rng::gen_bool(&mut rng, 0.3);
+        let b = (seed % n as u64) as usize;
+        cfg.weights = (0..n).map(|i| if heavy && i != b { rand::Rng::gen_range(&mut rng, 1..=2) } else { 1 }).collect();
+        cfg.leaders = (0..n).map(|i| i == b || rand::Rng::gen_range(&mut rng, 0..100) < 85).collect();
+        if !(0..n).any(|i| cfg.leaders[i] && i != b) {
+            cfg.leaders[(b + 1) % n] = true;
+        }
+        cfg.byz = (0..n).map(|i| i == b).collect();
+        cfg.twins = if rand::Rng::gen_bool(&mut rng, 0.75) { 2 } else { 3 };
+        cfg.faults.byz = if rand::Rng::gen_bool(&mut rng, 0.5) { rand::Rng::gen_range(&mut rng, 3..15) } else { 0 };
+        cfg.faults.crash = cfg.faults.crash.min(2);
+        cfg.faults.crash_in_write = cfg.faults.crash_in_write.min(2);
+        cfg.n_actions = rand::Rng::gen_range(&mut rng, 500..1500);
+    }
     let mut plan = bft::gen_plan(&cfg);
+    if mode == "twins" {
+        let mut rng = crate::kit::stream(seed, "twins");
+        let mut at = rand::Rng::gen_range(&mut rng, 10..80usize);
+        while at < plan.len() {
+            plan.insert(at, bft::Action::Retwin { mask: rand::Rng::gen(&mut rng) });
+            at += rand::Rng::gen_range(&mut rng, 30..260usize);
+        }
+    }
     if mode == "hidden" {
         // Episodes: the commit votes of a view reach one correct node only, that node is cut off,
         // the others time out and go on; much later the network heals.  If the rules which force
